@@ -753,6 +753,54 @@ def run(ctx):
 
     ctx.section(_sec_append)
 
+    def _sec_exists():
+        # ---------------------------------------------------------------- exists
+        # upsert_routes appends the handlers that are NOT in the routes file yet. "Already there" is decided by
+        # reading the path literal of an existing decorator (`call.args[0]`): it must be compared for EQUALITY with the
+        # path built from `route` — a prefix / substring / suffix test also accepts the handler of another resource
+        # whose path merely begins the same way (`/api/itemtag` for `/api/item`), the later model's handlers are then
+        # not appended and the document lacks operations that were requested.
+        up0 = index.func("cdd.compound.openapi.gen_routes.upsert_routes")
+        n_reads = 0
+        # ... in upsert_routes itself or in a function nested in it (`def is_requested_route(call)`)
+        for up_, nd in [(g_, x_) for g_ in [up0] + [h_ for h_ in index.funcs.values() if h_.outer is up0] for x_ in iter_own(g_.node)]:
+            if not (isinstance(nd, ast.Subscript) and norm(nd).endswith(".args[0]") and isinstance(nd.value, ast.Attribute) and nd.value.attr == "args"):
+                continue
+            if isinstance(up_.mod.parents.get(nd), ast.Attribute) and up_.mod.parents.get(nd).attr in ("lineno", "col_offset"):
+                continue
+            n_reads += 1
+            # climb through value-preserving wrappers (get_value(...), str(...)) to the expression that consumes the text
+            cur, par = nd, up_.mod.parents.get(nd)
+            while isinstance(par, ast.Call) and cur in par.args and norm(par.func) in ("get_value", "str", "cdd.shared.ast_utils.get_value"):
+                cur, par = par, up_.mod.parents.get(par)
+            uses_ = [(cur, par)]
+            if isinstance(par, (ast.Assign, ast.AnnAssign, ast.NamedExpr)) and par.value is cur:
+                # an explaining variable: every read of it is a consumer
+                t_ = par.targets[0] if isinstance(par, ast.Assign) else par.target
+                if isinstance(t_, ast.Name):
+                    uses_ = [(x, up_.mod.parents.get(x)) for x in iter_own(up_.node) if isinstance(x, ast.Name) and x.id == t_.id and isinstance(x.ctx, ast.Load)]
+            for cur, par in uses_:
+                how = None
+                if isinstance(par, ast.Compare) and len(par.ops) == 1 and isinstance(par.ops[0], ast.Eq):
+                    other = par.comparators[0] if par.left is cur else par.left
+                    from ..defuse import expand_aliases as _expand
+
+                    how = "route" in {x.id for o_ in (other, _expand(up_, other)) for x in ast.walk(o_) if isinstance(x, ast.Name)} or None
+                    why_ = "" if how else "the existing handler's path is compared with `{}`, which does not depend on `route`".format(short(other, 60))
+                elif isinstance(par, ast.Compare) and len(par.ops) == 1 and isinstance(par.ops[0], ast.In) and par.left is cur and isinstance(par.comparators[0], (ast.Tuple, ast.Set, ast.List)):
+                    how = True
+                    why_ = ""
+                else:
+                    why_ = (
+                        "the existing handler's path is consumed by `{}` instead of an equality with the path built from `route`: a "
+                        "prefix / substring test also accepts another resource's handler (`/api/itemtag` for `/api/item`), whose "
+                        "presence then suppresses the handlers that were to be added".format(short(par, 70))
+                    )
+                ctx.ob("C16.exists", up_, cur, bool(how), why_, line=nd.lineno)
+        ctx.floor("reads of an existing handler's path in upsert_routes", n_reads, 1)
+
+    ctx.section(_sec_exists)
+
     def _sec_cli():
         # ---------------------------------------------------------------- cli
         # "for all non-empty CRUD subsets of {C,R,D}": every such subset must be requestable — the `--crud` choices of
